@@ -190,6 +190,65 @@ func (p *Prog) verifyFunc(fn *ssa.Function, ct *Contract) (res *FuncResult) {
 		p.verifyInitGlobals(fn, fr, st)
 		return res
 	}
+	for _, sa := range ct.StoreAfter {
+		// syntactic obligation: every store to the field happens after (is
+		// dominated by) a call of the named callee
+		var bad []string
+		type site struct {
+			b   *ssa.BasicBlock
+			idx int
+		}
+		var calls []site
+		for _, b := range fn.Blocks {
+			for i, in := range b.Instrs {
+				if ci, ok := in.(ssa.CallInstruction); ok {
+					c := ci.Common()
+					k := ""
+					if c.IsInvoke() {
+						k = ifaceMethodKey(c)
+					} else if cf, ok := c.Value.(*ssa.Function); ok {
+						if cf.Origin() != nil {
+							cf = cf.Origin()
+						}
+						k = funcKey(cf)
+					}
+					if k != "" && calleeMatches(k, sa[1]) {
+						calls = append(calls, site{b, i})
+					}
+				}
+			}
+		}
+		nStores := 0
+		for _, b := range fn.Blocks {
+			for i, in := range b.Instrs {
+				st, ok := in.(*ssa.Store)
+				if !ok {
+					continue
+				}
+				fa, ok := st.Addr.(*ssa.FieldAddr)
+				if !ok || fieldName(fa) != sa[0] {
+					continue
+				}
+				nStores++
+				dominated := false
+				for _, c := range calls {
+					if (c.b == b && c.idx < i) || (c.b != b && c.b.Dominates(b)) {
+						dominated = true
+					}
+				}
+				if !dominated {
+					bad = append(bad, p.pos(st.Pos()))
+				}
+			}
+		}
+		stt := "unsat"
+		if len(bad) > 0 || nStores == 0 {
+			stt = "sat"
+		}
+		vc.obls = append(vc.obls, &Obligation{Name: key + "/store[" + sa[0] + "]-after[" + sa[1] + "]", Kind: "scan", Goal: tTrue, Func: key, Pos: p.pos(fn.Pos()),
+			Clause: "every store to field " + sa[0] + " is dominated by a call of " + sa[1],
+			Result: &SolverResult{Status: stt, Solver: "syntactic-scan", Output: fmt.Sprintf("stores: %d, not dominated by the call: %s", nStores, strings.Join(bad, ", "))}})
+	}
 	if ct.NoMapRange {
 		// syntactic obligation: no iteration over a Go map (whose order is random)
 		var found []string
